@@ -265,7 +265,9 @@ class C03(ArtifactCheck):
         return {'logic': case['hist']['logic'], 'engine': engine_name(case['options']),
                 'incremental': not any(o[0] == ':incremental' and o[1] == 'false' for o in case['options']),
                 'skip_knobs': any(k in knobs for k in ('sat_initial_skip_step', 'sat_skip_step_factor')),
-                'bool_arg_uf': any(d['k'] == 'declare-fun' and 'Bool' in d['args'] for d in case['hist']['decls'])}
+                'bool_arg_uf': any(d['k'] == 'declare-fun' and 'Bool' in d['args'] for d in case['hist']['decls']),
+                # an assertion level was pushed at some point (a popped level still leaves its activation variable in the SAT solver)
+                'pushed': any(c['k'] == 'push' for c in case['hist']['commands'])}
 
 
 class C06(ArtifactCheck):
